@@ -56,6 +56,7 @@ class Fn:
         self.structs = spec.get("structs", {})      # struct/variant path -> (Gallina constructor, [field order])
         self.uses_fuel = False
         self.gensym = 0
+        self.buffers = {}                           # local fixed-size byte buffer -> its length
         self.handles = {}                           # local file-handle variable -> Gallina text of the path it was opened on
 
     def fresh(self, base):
@@ -670,6 +671,17 @@ class Fn:
 
         def after(env_):
             return self.stmts(rest, tl, env_, ctx)
+        if k == "let" and s[1][0] == "pbind" and s[3] is not None and s[3][0] == "repeat" and s[3][1] == ("num", 0) and s[3][2][0] == "num" and self.spec.get("read_exact"):
+            # `let mut m = [0u8; N];` - a buffer that a following `r.read_exact(&mut m)?` fills
+            self.buffers[s[1][1]] = s[3][2][1]
+            return after(dict(env, **{s[1][1]: "[u8;%d]" % s[3][2][1]}))
+        if k == "expr" and self.spec.get("read_exact"):
+            e0 = s[1]
+            while e0[0] == "try":
+                e0 = e0[1]
+            if e0[0] == "mcall" and e0[2] == "read_exact" and e0[1][0] == "path" and len(e0[3]) == 1 and e0[3][0][0] == "path" and e0[3][0][1][0] in self.buffers:
+                rv, bv = self.var(e0[1][1][0]), self.var(e0[3][0][1][0])
+                return "match take_exact %d %s with Some (%s, %s) => %s | None => %s end" % (self.buffers[e0[3][0][1][0]], rv, bv, rv, after(env), self.spec["read_exact"])
         if k == "let" and s[1][0] == "pbind" and s[3] is not None and self.spec.get("opens"):
             e0 = s[3]
             while e0[0] == "try":
@@ -1091,6 +1103,13 @@ def functions():
         return translate_fn(src, "save", "Archive", spec, "g_archive_save", "(path : apath)", "list asys", self_type="Archive")
     out.append(("archive_save", "src/bin/copia/archive.rs Archive::save", None, t_archive_save))
 
+    def t_read_magic():
+        src = read("src/bin/copia/wire.rs")
+        spec = dict(signature=[("r", "R")], read_exact="None", ok=lambda s_: "Some " + paren(s_),
+                    consts={"MAGIC": ("MAGIC", "[u8;6]")}, eq={"[u8;6]": "(list_eqb Z.eqb)"}, param_types={"r": "Input"})
+        return translate_fn(src, "read_magic", None, spec, "g_read_magic", "(r : list Z)", "option bool")
+    out.append(("read_magic", "src/bin/copia/wire.rs read_magic", None, t_read_magic))
+
     def t_cas():
         src = read("src/bin/copia/wire.rs")
         check_enum(src, "Cas", ["Commit", "Conflict"])
@@ -1204,6 +1223,7 @@ GROUPS = {
     # group -> (imports, needs the digest section, [function keys], properties whose models rest on these functions)
     "Reconcile": ("Model.Reconcile", True, ["same", "reconcile_path", "reconcile"]),
     "Cas": ("", True, ["cas_decide"]),
+    "WireMagic": ("Model.Wire", False, ["read_magic"]),
     "BisyncApply": ("", "bisync", ["apply"]),
     "BisyncSys": ("", "bisyncsys", ["copy_atomic"]),
     "ArchiveSave": ("Model.ArchiveSys", "archivesys", ["archive_save"]),
